@@ -458,7 +458,10 @@ def run(ck, w):
     _walk_does_not_follow(ck, w)
 
     # ---- 6. every Ok path records an entry ------------------------------------------------------------------------
+    merged = [fn for fn in ("backup::BackupWriter::copy_dir", "backup::BackupWriter::copy_symlink") if fn not in lib.bodies]
     for fn in ("backup::BackupWriter::copy_dir", "backup::BackupWriter::copy_symlink", "backup::BackupWriter::copy_file"):
+        if fn in merged:
+            continue
         b = w.body(fn)
         o = ck.ob("C01.6." + fn.split("::")[-1], "%s: every Ok return has recorded the entry (push_entry or push_file)" % fn.split("::")[-1])
         oks = [bb for bb, j, s in rules.agg_sites(b, "std::result::Result", "Ok") if s["pl"]["l"] == 0]
@@ -474,6 +477,35 @@ def run(ck, w):
         else:
             bad_bb = [bb for bb in oks if not b.must_pass_edges(edges, bb)][0]
             ck.fail(o, fn, "Ok without recording the entry", "path: %s" % rules.witness(b, bad_bb, removed_edges=edges))
+    if merged:
+        # copy_dir / copy_symlink were folded into copy_entry: there, every Ok return has recorded the entry, gone through copy_file,
+        # or belongs to the arm for entries of unknown kind (which are not stored)
+        b = w.body("backup::BackupWriter::copy_entry")
+        o = ck.ob("C01.6.copy_entry", "copy_entry (directories and symlinks handled in place): every Ok return has recorded the entry, delegated to "
+                                      "copy_file, or concerns an entry of unknown kind")
+        oks = [bb for bb, j, s in rules.agg_sites(b, "std::result::Result", "Ok") if s["pl"]["l"] == 0]
+        rec = events_of(lib, b, "index::write::IndexWriter::push_entry") + events_of(lib, b, "backup::BackupWriter::copy_file")
+        nodes = {e.bb for e in rec}
+        kadt = lib.adts.get("kind::Kind")
+        unknown_idx = [i for i, v in enumerate(kadt["variants"]) if v["name"] == "Unknown"][0] if kadt else None
+        unk_edges = set()
+        for bb_ in sorted(b.live):
+            t_ = b.blocks[bb_]["term"]
+            if t_["tk"] != "switch":
+                continue
+            dl_ = flow.operand_local(t_["discr"])
+            for st_ in reversed(b.blocks[bb_]["stmts"]):
+                if st_["sk"] == "assign" and st_["pl"]["l"] == dl_ and st_["rv"]["rk"] == "discr" and "kind::Kind" in (b.locals[st_["rv"]["pl"]["l"]] or ""):
+                    arms_ = {int(a[0]): a[1] for a in t_["arms"]}
+                    unk_edges.add((bb_, arms_.get(unknown_idx, t_["otherwise"])))
+                break
+        bad_ = [bb for bb in oks if bb in b.reachable(0, removed_nodes=nodes, removed_edges=unk_edges)]
+        if not oks or not rec:
+            ck.fail(o, b.name, "no record / no Ok", "oks=%d records=%d" % (len(oks), len(rec)))
+        elif bad_:
+            ck.fail(o, b.name, "Ok without recording the entry", "path: %s" % rules.witness(b, bad_[0], removed_nodes=nodes, removed_edges=unk_edges))
+        else:
+            ck.ok(o, "%d Ok return(s)" % len(oks), instances=len(oks))
 
 
 def _recorded_from_source(ck, w):
@@ -484,7 +516,10 @@ def _recorded_from_source(ck, w):
     o = ck.ob("C01.3e", "copy_dir / copy_symlink / copy_file record IndexEntry::metadata_from(source_entry); only addresses come from the basis entry")
     n = 0
     problems = []
-    for fn in ("backup::BackupWriter::copy_dir", "backup::BackupWriter::copy_symlink", "backup::BackupWriter::copy_file"):
+    fns_ = [fn for fn in ("backup::BackupWriter::copy_dir", "backup::BackupWriter::copy_symlink", "backup::BackupWriter::copy_file") if fn in lib.bodies]
+    if len(fns_) < 3:
+        fns_.append("backup::BackupWriter::copy_entry")      # directories / symlinks recorded in copy_entry itself
+    for fn in fns_:
         b = w.body(fn)
         recs = rules.creators_of(b, "index::write::IndexWriter::push_entry") + rules.creators_of(b, "backup::FileCombiner::push_file")
         for e in recs:
@@ -513,7 +548,7 @@ def _recorded_from_source(ck, w):
     mfs = rules.creators_of(pf, "index::entry::IndexEntry::metadata_from")
     if not mfs or not all(any(x[0] in ("param", "upvar") and x[1] == "entry" for x in flow.origins_x(lib, pf, m.args[0])) for m in mfs):
         problems.append(("backup::FileCombiner::push_file", "push_file does not build its entry with metadata_from(entry)", (mfs or [None])[0]))
-    ck.floor("C01.3e.n", "entries recorded by copy_dir / copy_symlink / copy_file", n, 4)
+    ck.floor("C01.3e.n", "entries recorded by copy_dir / copy_symlink / copy_file", n, 4 if len(fns_) == 3 and "backup::BackupWriter::copy_entry" not in fns_ else 3)
     if problems:
         seen = set()
         for fn, m, e in problems:
@@ -618,13 +653,17 @@ def _content_path(ck, w):
     narrowing = [e for e in sf.events if e.bb in sf.live and NARROWING.search(e.name)]
     if narrowing:
         problems.append("the address list is narrowed or reordered by %s" % narrowing[0].name.split("::")[-1])
-    if len(push) != 1 or len(rd) != 1 or len(emp) != 1:
+    if len(push) != 1 or not rd or not emp:
         problems.append("loop shape changed (push=%d read=%d is_empty=%d)" % (len(push), len(rd), len(emp)))
     else:
-        ne = rules.bool_switch_edges(sf, emp[0], False)
+        # `loop { read; if empty break; store; push }` or the primed `read; while !empty { store; push; read }`
+        ne = set()
+        for e_ in emp:
+            ne |= rules.bool_switch_edges(sf, e_, False)
+        rdb = {e_.bb for e_ in rd}
         for (u, v) in ne:
-            if rd[0].bb in sf.reachable(v, removed_nodes={push[0].bb}):
-                # may legitimately leave through an error return, but must not loop again without pushing
+            if rdb & sf.reachable(v, removed_nodes={push[0].bb}):
+                # may legitimately leave through an error return, but must not read again without pushing
                 problems.append("a non-empty buffer can be skipped without recording its address")
         arg = flow.origins_x(lib, sf, push[0].args[1])
         if not any(x[0] == "agg" and str(x[1]).endswith("Address") for x in arg) and "blockdir::BlockDir::store_or_deduplicate" not in flow.origin_calls(arg):
@@ -635,9 +674,15 @@ def _content_path(ck, w):
             po = flow.origins_x(lib, sf, push[0].args[0])
             if not ({x for x in ro if x[0] == "call"} & {x for x in po if x[0] == "call"}):
                 problems.append("the returned vector is not the one the addresses were pushed to")
-        mb = flow.origins_x(lib, sf, rd[0].args[0])
-        if not any(x[0] in ("param", "upvar") and x[1] == "max_block_size" for x in mb):
-            problems.append("blocks are not read in max_block_size units")
+        for r_ in rd:
+            mb = flow.origins_x(lib, sf, r_.args[0])
+            if not any(x[0] in ("param", "upvar") and x[1] == "max_block_size" for x in mb):
+                problems.append("blocks are not read in max_block_size units")
+        # the emptiness test is on the buffer that was read
+        for e_ in emp:
+            eo = flow.origin_calls(flow.origins_x(lib, sf, e_.args[0], through_calls=[r"Try>?::branch$", r"Result::<T, E>::map_err$"]))
+            if "io::read_with_retries" not in eo:
+                problems.append("the end-of-file test is not on the buffer that was read")
     if problems:
         for m in sorted(set(problems)):
             ck.fail(o, sf.name, m, m)
